@@ -68,6 +68,16 @@ ERRORS = [
     ("illegal-empty-value", ["-Cunparser="]), ("illegal-after-legal", ["-Cunparser=oneliner", "-Cif_style=nope"]),
     ("illegal-deprecated", ["--unparser", "bogus"]), ("unknown-after-legal", ["-Cunparser=oneliner", "-Cnope=1"]),
     ("illegal-value-case", ["-Cunparser=Oneliner"]), ("illegal-value-space", ["-Cunparser= oneliner"]),
+    # an error must not be hidden by what follows it
+    ("illegal-then-legal-same-option", ["-Cif_style=bogus", "-Cif_style=short_circuit"]),
+    ("illegal-then-legal-same-option-unparser", ["-C", "unparser=bogus", "-C", "unparser=oneliner"]),
+    ("illegal-then-deprecated-legal", ["-Cunparser=bogus", "--unparser", "oneliner"]),
+    ("illegal-wrapper-then-legal", ["-Cexpr_wrapper=x", "-Cexpr_wrapper=list", "-Cexpr_wrapper=chain_call"]),
+    ("unknown-then-legal", ["-Cnope=1", "-Cunparser=oneliner"]),
+    ("malformed-then-legal", ["-Cunparser", "-Cunparser=oneliner"]),
+    ("legal-illegal-legal", ["-Cif_style=if_expr", "-Cif_style=nope", "-Cif_style=if_expr"]),
+    ("illegal-deprecated-then-legal-C", ["--unparser", "oneliner", "-Cunparser=bogus", "-Cunparser=oneliner"]),
+    ("two-unknown", ["-Ca=1", "-Cb=2"]),
 ]
 
 
